@@ -19,6 +19,10 @@ for d in sorted(os.listdir(root)):
         else:
             how = f"correspondence broke ({det.get('family')}), no failing input found"
     hist = m.get("history", "")
+    for other, e in (m.get("also_caught_by") or {}).items():
+        if e.get("verdict") == "VIOLATION":
+            ed = e.get("detail") or {}
+            hist = (hist + "; " if hist else "") + f"caught by {other}'s check ({e.get('tier')}): {ed.get('clause') or ed.get('kind')}"
     rows.append((d, ", ".join(m.get("files") or []), (m.get("needs") or "")[:160].replace("|", "/").replace("\n", " "),
                  c.get("verdict", "?"), c.get("tier", ""), how.replace("|", "/"), hist))
 with open(os.path.join(root, "README.md"), "w") as f:
@@ -30,5 +34,8 @@ with open(os.path.join(root, "README.md"), "w") as f:
     for r in rows:
         f.write("| " + " | ".join(str(x) for x in r) + " |\n")
     n = len(rows); c = sum(1 for r in rows if r[3] == "VIOLATION")
-    f.write(f"\n{c} of {n} caught.\n")
+    other = sum(1 for r in rows if r[3] != "VIOLATION" and "caught by" in r[6])
+    q = sum(1 for r in rows if r[3] == "VIOLATION" and r[4] == "quick")
+    f.write(f"\n{c} of {n} caught by their own property's check ({q} by the quick tier), {other} more by another property's check, "
+            f"{n - c - other} not caught.\n")
 print(len(rows))
